@@ -79,6 +79,8 @@ def eoi_fact(x, inp_terms=None, forward=False):
             return "a sub-parser reported Incomplete (re-raised)"
         if c[0] == "is" and c[2] == SOME and c[3] is False and c[1][0] == "call" and c[1][1].split("::")[-1] in ("first", "split_first") and len(c[1][2]) == 1:
             return "%s() is None" % c[1][1].split("::")[-1]
+        if forward and c[0] == "slicepat" and len(c) == 6 and c[3] is False and c[5] is True and looks_like_remainder(c[1]):
+            fwd = fwd or "the remainder matches a slice pattern without rest: it ends after %d byte(s)" % (c[2] + c[4])
         if c[0] == "is" and c[2] == SOME and c[3] is False and pathsum.is_slice_get(c[1]) and looks_like_remainder(c[1][2][0]):
             return "get(range) is None: the remainder is shorter than needed"
         if c[0] == "true" and c[1][0] == "bin" and c[1][1] in ("Gt", "Ge", "Le") and (
